@@ -8,6 +8,8 @@ Line-protocol ops of the tree code length model (labels and function strings con
 * `aifeyn_countparams <maxp> <n> f1..fn`    → `c1,..` | `-`
 * `aifeyn_pname <j>`                        → `a<j>`
 * `aifeyn_tree2 <n0> .. <n1> .. <n2> .. <n> l1..ln` → `ok <bits> <len>` | `err ValueError` | `notmodelled` | `fuel`
+                                              (`tree_to_aifeyn`)
+* `aifeyn_single4 <n0> .. <n1> .. <n2> .. <n> l1..ln` → same format (`single_function`, steps (1) and (4))
 * `aifeyn_writer <S> {<nf> f.. <nt> {<k> l..} <R> {<ne> {<k> l..}}}`
                                              → `<aifeyn_<n>.txt lines, ','>|<trees_<n>.txt lines, ';' (labels ',')>`
 -/
@@ -88,6 +90,15 @@ def handle : Handler
       let (labels, r) ← takeCounted r
       if !r.isEmpty then none
       match treeToAifeyn floatOps { nullary := b0, unary := b1, binary := b2 } labels with
+      | .ok v => some s!"ok {bits v} {labels.length}"
+      | .error e => some (errStr e)
+  | "aifeyn_single4" :: rest => do
+      let (b0, r) ← takeCounted rest
+      let (b1, r) ← takeCounted r
+      let (b2, r) ← takeCounted r
+      let (labels, r) ← takeCounted r
+      if !r.isEmpty then none
+      match singleFunctionAifeyn floatOps { nullary := b0, unary := b1, binary := b2 } labels with
       | .ok v => some s!"ok {bits v} {labels.length}"
       | .error e => some (errStr e)
   | "aifeyn_writer" :: rest => do
